@@ -4992,7 +4992,7 @@ class PrecededBy(ParseElementEnhance):
             if loc < self.retreat:
                 raise ParseException(instring, loc, self.errmsg, self)
             start = loc - self.retreat
-            _, ret = self.expr._parse(instring, start)
+            _, ret = self.expr._parse(instring, start, do_actions=do_actions)
             return loc, ret
 
         # retreat specified a maximum lookbehind window, iterate
@@ -5003,7 +5003,9 @@ class PrecededBy(ParseElementEnhance):
         for offset in range(1, min(loc, self.retreat + 1) + 1):
             try:
                 # print('trying', offset, instring_slice, repr(instring_slice[loc - offset:]))
-                _, ret = test_expr._parse(instring_slice, len(instring_slice) - offset)
+                _, ret = test_expr._parse(
+                    instring_slice, len(instring_slice) - offset, do_actions=do_actions
+                )
             except ParseBaseException as pbe:
                 last_expr = pbe
             else:
